@@ -464,6 +464,8 @@ enum GF {
     Val(MV),
     /// inline command: rendered line (without CRLF) and the tokens it must decode to
     Inline(String, Vec<String>),
+    /// a line (without CRLF) the decoder must refuse with a protocol error -- never a panic
+    Refused(Vec<u8>),
 }
 
 const PAYLOAD_PIECES: &[&[u8]] = &[
@@ -486,8 +488,65 @@ const INLINE_REST: &[(&str, &str)] = &[
     ("*1", "*1"),
     ("\"c\\rd\"", "c\rd"),
     ("\"u\\zv\"", "u\\zv"),
+    ("\"h\u{e9}llo w\u{20ac}rld \u{1F600}\"", "h\u{e9}llo w\u{20ac}rld \u{1F600}"),
+    ("\u{1F600}\u{1F600}", "\u{1F600}\u{1F600}"),
+    (
+        "\"\u{e9}\u{20ac}\u{e9}\u{20ac}\u{e9}\u{20ac}\u{e9}\u{20ac}\u{e9}\u{20ac}\u{e9}\u{20ac}\u{e9}\u{20ac}\u{e9}\u{20ac}\u{e9}\u{20ac}\u{e9}\u{20ac}\u{e9}\u{20ac}\u{e9}\u{20ac}\u{e9}\u{20ac}\u{e9}\u{20ac}\u{e9}\u{20ac}\u{e9}\u{20ac} tail\"",
+        "\u{e9}\u{20ac}\u{e9}\u{20ac}\u{e9}\u{20ac}\u{e9}\u{20ac}\u{e9}\u{20ac}\u{e9}\u{20ac}\u{e9}\u{20ac}\u{e9}\u{20ac}\u{e9}\u{20ac}\u{e9}\u{20ac}\u{e9}\u{20ac}\u{e9}\u{20ac}\u{e9}\u{20ac}\u{e9}\u{20ac}\u{e9}\u{20ac}\u{e9}\u{20ac} tail",
+    ),
 ];
 const INLINE_SEPS: &[&str] = &[" ", "  ", "\t"];
+
+
+/// the multi-byte characters used to straddle byte offsets: 2, 3 and 4 bytes
+const MB_CHARS: &[&str] = &["\u{e9}", "\u{20ac}", "\u{1F600}"];
+
+/// An inline-command line (no CRLF) of about `len` bytes: ASCII filler words, a multi-byte
+/// character of width MB_CHARS[wi] placed so that byte offset `b` falls `k` bytes into it
+/// (k = 0: no such character), and quotes according to `mode`:
+/// 0 none, 1 balanced "..", 2 opening " never closed, 3 lone " at the end, 4 balanced '..',
+/// 5 lone ', 6 balanced ".." holding \" \\ \n escapes, 7 unclosed " with a trailing backslash,
+/// 8 "..\" (escaped closing quote, so unclosed)
+fn inline_line(len: usize, b: usize, wi: usize, k: usize, mode: usize) -> Vec<u8> {
+    let ch = MB_CHARS[wi % MB_CHARS.len()].as_bytes();
+    let mut line: Vec<u8> = Vec::with_capacity(len + 8);
+    line.extend_from_slice(b"ECHO ");
+    match mode {
+        1 | 2 | 6 | 7 | 8 => line.push(b'"'),
+        4 => line.push(b'\''),
+        _ => {}
+    }
+    if mode == 6 {
+        line.extend_from_slice(b"x\\\"y\\\\z\\n");
+    }
+    let fill = |line: &mut Vec<u8>, upto: usize| {
+        while line.len() < upto {
+            let i = line.len();
+            line.push(if i % 9 == 8 { b' ' } else { b'a' + (i % 7) as u8 });
+        }
+    };
+    if k > 0 && k < ch.len() && b >= k && b - k >= line.len() {
+        fill(&mut line, b - k);
+        line.extend_from_slice(ch);
+    }
+    let tail = match mode {
+        1 | 6 | 4 | 3 | 5 | 7 => 1,
+        8 => 2,
+        _ => 0,
+    };
+    let upto = len.saturating_sub(tail).max(line.len());
+    fill(&mut line, upto);
+    match mode {
+        1 | 6 => line.push(b'"'),
+        4 => line.push(b'\''),
+        3 => line.push(b'"'),
+        5 => line.push(b'\''),
+        7 => line.push(b'\\'),
+        8 => line.extend_from_slice(b"\\\""),
+        _ => {}
+    }
+    line
+}
 
 fn gen_payload(t: &mut Tape, max_pieces: usize) -> Vec<u8> {
     let n = t.pick(max_pieces + 1);
@@ -537,7 +596,7 @@ fn c20_frames(tape: &[u16]) -> Vec<GF> {
     let mut t = Tape::new(tape);
     let small = t.pick(5) < 2;
     let n = 1 + if small { t.pick(2) } else { t.pick(6) };
-    (0..n)
+    let mut frames: Vec<GF> = (0..n)
         .map(|_| {
             if t.pick(10) >= 8 {
                 gen_inline(&mut t)
@@ -545,11 +604,29 @@ fn c20_frames(tape: &[u16]) -> Vec<GF> {
                 GF::Val(gen_value(&mut t, 0, small))
             }
         })
-        .collect()
+        .collect();
+    // one stream in eight also carries a refused inline line: unbalanced quote and a
+    // multi-byte character straddling an offset in 60..=70 or 124..=132
+    if !small && t.pick(8) == 0 {
+        let offs: Vec<usize> = (60..=70).chain(124..=132).collect();
+        let b = offs[t.pick(offs.len())];
+        let wi = t.pick(3);
+        let k = 1 + t.pick(wi + 1);
+        let mode = [2usize, 3, 7, 8, 5][t.pick(5)];
+        let len = [b + 6, 140, 300][t.pick(3)].max(b + 6);
+        let line = inline_line(len, b, wi, k, mode);
+        let at = t.pick(frames.len() + 1);
+        frames.insert(at, GF::Refused(line));
+    }
+    frames
 }
 
 struct StreamInfo {
     stream: Vec<u8>,
+    /// the stream holds a line the decoder must refuse: what the loop observes then depends
+    /// on the chunking (it stops decoding a read after a protocol error), so the expected
+    /// events come from the reference decoder loop per split
+    has_refused: bool,
     expected: Vec<Ev>,
     /// ranges of non-trivial cut positions
     nt: Vec<(usize, usize)>,
@@ -559,8 +636,14 @@ fn c20_stream(frames: &[GF]) -> StreamInfo {
     let mut stream = Vec::new();
     let mut nt = Vec::new();
     let mut expected = Vec::new();
+    let mut has_refused = false;
     for f in frames {
         match f {
+            GF::Refused(line) => {
+                stream.extend_from_slice(line);
+                stream.extend_from_slice(b"\r\n");
+                has_refused = true;
+            }
             GF::Val(v) => {
                 mv_encode(v, &mut stream, &mut nt);
                 expected.push(Ev::Frame(v.clone()));
@@ -572,13 +655,14 @@ fn c20_stream(frames: &[GF]) -> StreamInfo {
             }
         }
     }
-    StreamInfo { stream, expected, nt }
+    StreamInfo { stream, has_refused, expected, nt }
 }
 
 fn gf_json(f: &GF) -> J {
     match f {
         GF::Val(v) => mv_json(v),
         GF::Inline(l, _) => json!({ "inline": l }),
+        GF::Refused(l) => json!({ "refused_line": bj(l) }),
     }
 }
 
@@ -596,18 +680,26 @@ enum SplitRes {
 fn c20_split(info: &StreamInfo, cuts: &[usize], kf_on: bool) -> SplitRes {
     let chunks = chunks_of(&info.stream, cuts);
     let got = code_loop(&chunks);
-    if got == info.expected {
+    let per_split;
+    let expected: &Vec<Ev> = if info.has_refused {
+        per_split = model_loop(&chunks, false);
+        &per_split
+    } else {
+        &info.expected
+    };
+    if got == *expected {
         return SplitRes::Ok;
     }
     if kf_on && got == model_loop(&chunks, true) {
         return SplitRes::Kf;
     }
     SplitRes::Fail(format!(
-        "stream {:?} delivered in chunks cut at {:?}: decoder loop produced {} but the frames sent were {}",
+        "stream {:?} delivered in chunks cut at {:?}: decoder loop produced {} but {} {}",
         String::from_utf8_lossy(&info.stream),
         cuts,
         evs_json(&got),
-        evs_json(&info.expected)
+        if info.has_refused { "the specified decoder loop (frames, protocol error for the refused line, rest on the next read) gives" } else { "the frames sent were" },
+        evs_json(expected)
     ))
 }
 
@@ -665,6 +757,16 @@ fn cut_is_nontrivial(nt: &[(usize, usize)], cuts: &[usize]) -> bool {
 
 /// strict check of a replay / witness / corpus case. Ok(nontrivial) or Err(msg)
 fn c20_case_check(case: &J, kf_on: bool) -> Result<(bool, bool), String> {
+    if case.get("live_big").and_then(|l| l.as_bool()).unwrap_or(false) {
+        return match BigCase::from_json(case).run() {
+            LiveVerdict::Held => Ok((true, false)),
+            LiveVerdict::Violation(m) => Err(m),
+            LiveVerdict::Inconclusive(m) => {
+                eprintln!("INCONCLUSIVE: {m}");
+                std::process::exit(2)
+            }
+        };
+    }
     if let Some(v) = case.get("roundtrip") {
         let mv = mv_from_json(v);
         c20_roundtrip(&mv)?;
@@ -674,18 +776,8 @@ fn c20_case_check(case: &J, kf_on: bool) -> Result<(bool, bool), String> {
     let cuts: Vec<usize> = case["cuts"].as_array().cloned().unwrap_or_default().iter().filter_map(|c| c.as_u64().map(|x| x as usize)).collect();
     // expected frames = what the specified decoder reads from the whole stream
     let expected = model_loop(&[&stream[..]], false);
-    let mut pos_check = Vec::new();
-    let mut nt = Vec::new();
-    for e in &expected {
-        match e {
-            Ev::Frame(v) => mv_encode(v, &mut pos_check, &mut nt),
-            _ => {
-                eprintln!("replay: the stream is not a sequence of well-formed frames");
-                std::process::exit(2)
-            }
-        }
-    }
-    let info = StreamInfo { stream, expected, nt: Vec::new() };
+    let has_refused = expected.iter().any(|e| !matches!(e, Ev::Frame(_)));
+    let info = StreamInfo { stream, has_refused, expected, nt: Vec::new() };
     let live = case.get("live").and_then(|l| l.as_bool()).unwrap_or(false);
     if live {
         return match c20_live_one(&info.stream, &cuts, kf_on) {
@@ -748,6 +840,11 @@ fn c20(args: &Args) {
                 }
             }
             Ok(Err(m)) | Err(m) => {
+                // live cases: only a failure that shows again counts
+                let is_live = case.get("live_big").is_some() || case.get("live").is_some();
+                if is_live && !(0..3).any(|_| matches!(catch(|| c20_case_check(&case, kf_on)), Ok(Err(_)) | Err(_))) {
+                    inconclusive_exit(&ev, &case, &m);
+                }
                 report_violation(&mut ev, &case, &format!("{m} (corpus {})", p.display()));
                 finish(&ev);
             }
@@ -764,7 +861,7 @@ fn c20(args: &Args) {
         let info = c20_stream(&frames);
         let mut e = evc.borrow_mut();
         // self-check of the reference: the specified decoder reads exactly the frames sent
-        if model_loop(&[&info.stream[..]], false) != info.expected {
+        if !info.has_refused && model_loop(&[&info.stream[..]], false) != info.expected {
             eprintln!("INCONCLUSIVE: harness reference decoder disagrees with the generator on {:?}", String::from_utf8_lossy(&info.stream));
             std::process::exit(2);
         }
@@ -779,6 +876,9 @@ fn c20(args: &Args) {
             }
         }
         e.class(if info.stream.len() <= 14 { "stream_le_14_bytes" } else { "stream_gt_14_bytes" });
+        if info.has_refused {
+            e.class("stream_with_refused_inline_line");
+        }
         let mut sampled = false;
         for (class, cuts) in c20_splits(info.stream.len(), cutsel) {
             e.case();
@@ -853,6 +953,11 @@ fn c20(args: &Args) {
         finish(&ev);
     }
 
+    // live part with big frames and straddling writes: every tier
+    if let Some((case, msg)) = c20_live_big(args, &mut ev) {
+        report_violation(&mut ev, &case.json(), &msg);
+        finish(&ev);
+    }
     if args.tier == Tier::Thorough || std::env::var("VC_LIVE").is_ok() {
         c20_live(args, &mut ev, kf_on);
     }
@@ -1619,7 +1724,8 @@ fn c21_mutant(tape: &[u16]) -> MCase {
         24 => 4,
         25..=30 => 5,
         31..=32 => 6,
-        33..=44 => 7,
+        33..=40 => 7,
+        41..=44 => 13,
         45..=47 => 8,
         48..=50 => 9,
         51..=53 => 10,
@@ -1732,6 +1838,23 @@ fn c21_mutant(tape: &[u16]) -> MCase {
             let len = ["9999999999", "9223372036854775807", "100", "-2", "-3", "18446744073709551614"][t.pick(6)];
             MCase::plain(format!("${len}\r\nabc").into_bytes(), "bulk_length_exceeds_data")
         }
+        13 => {
+            // random inline command: length class, straddled offset, character width, quotes
+            let offs: Vec<usize> = (60..=70).chain(124..=132).collect();
+            let b = offs[t.pick(offs.len())];
+            let wi = t.pick(3);
+            let k = t.pick(wi + 2);
+            let mode = t.pick(9);
+            let len = [1usize, 63, 64, 65, 66, 127, 128, 129, 130, 1024, 65536][t.pick(11)] + t.pick(3);
+            let mut l = inline_line(len, b, wi, k, mode);
+            if t.pick(8) > 0 {
+                l.extend_from_slice(b"\r\n");
+            }
+            if t.pick(6) == 0 {
+                l.extend_from_slice(b"PING\r\n");
+            }
+            MCase::plain(l, "inline_random")
+        }
         _ => {
             let inner = ["$-2\r\n", "$-5\r\n", "*-1\r\n", "$a\r\n", ":\r\n", "$2\r\nabc\r\n"][t.pick(6)];
             MCase::plain(format!("*2\r\n$3\r\nfoo\r\n{inner}").into_bytes(), "bad_element_in_array")
@@ -1747,6 +1870,70 @@ impl MCase {
         }
         MCase::plain(body, self.class)
     }
+}
+
+
+/// Enumerated inline-command lines (a line that does not start with a RESP type byte):
+/// every quote mode x every offset in 60..=70 and 124..=132 straddled by a 2-, 3- and 4-byte
+/// character at every inner position x three line lengths; plain / all-multi-byte lines of
+/// lengths around 1, 63-66, 127-130, 1 KiB and 64 KiB; invalid UTF-8 at those offsets.
+fn c21_inline_cases() -> Vec<MCase> {
+    let mut out = Vec::new();
+    let crlf = |mut l: Vec<u8>| {
+        l.extend_from_slice(b"\r\n");
+        l
+    };
+    let offs: Vec<usize> = (60..=70).chain(124..=132).collect();
+    for mode in 0..9 {
+        for &b in &offs {
+            for wi in 0..3 {
+                for k in 1..=wi + 1 {
+                    for len in [b + 6, 136, 1024] {
+                        if len < b + 6 {
+                            continue;
+                        }
+                        out.push(MCase::plain(crlf(inline_line(len, b, wi, k, mode)), "inline_straddle"));
+                    }
+                }
+            }
+        }
+    }
+    for len in [1usize, 2, 5, 63, 64, 65, 66, 127, 128, 129, 130, 1024, 65536] {
+        for mode in [0usize, 1, 2, 3, 6, 7, 8] {
+            // ASCII only
+            out.push(MCase::plain(crlf(inline_line(len, 0, 0, 0, mode)), "inline_lengths"));
+            // dense multi-byte text: 'a' then two-/three-/four-byte characters back to back
+            for wi in 0..3 {
+                let ch = MB_CHARS[wi];
+                let mut l: Vec<u8> = if mode == 0 { b"a".to_vec() } else { b"a \"".to_vec() };
+                while l.len() < len {
+                    l.extend_from_slice(ch.as_bytes());
+                }
+                match mode {
+                    1 | 6 => l.push(b'"'),
+                    8 => l.extend_from_slice(b"\\\""),
+                    7 => l.push(b'\\'),
+                    _ => {}
+                }
+                out.push(MCase::plain(crlf(l), "inline_dense_multibyte"));
+            }
+        }
+    }
+    // invalid UTF-8: a lone continuation / lead byte at the offsets, with and without an open quote
+    for &b in &offs {
+        for bad in [&b"\xff"[..], &b"\xc3"[..], &b"\xe2\x82"[..], &b"\xf0\x9f\x98"[..], &b"\x80"[..]] {
+            for mode in [0usize, 2] {
+                let mut l = inline_line(b.saturating_sub(1), 0, 0, 0, if mode == 2 { 2 } else { 0 });
+                l.truncate(b.saturating_sub(1).max(6));
+                l.extend_from_slice(bad);
+                l.extend_from_slice(b" tail tail");
+                out.push(MCase::plain(crlf(l), "inline_invalid_utf8"));
+            }
+        }
+    }
+    // without the terminating CRLF the decoder has to ask for more
+    out.push(MCase::plain(inline_line(200, 64, 1, 1, 2), "inline_unterminated"));
+    out
 }
 
 fn c21_verdict_name(v: u8) -> &'static str {
@@ -1807,7 +1994,7 @@ fn c21(args: &Args) {
     let mut ev = Evidence::new(
         args,
         "exploration",
-        "every byte string of length <= 6 over the alphabet {+ - : $ * _ 0 1 2 9 CR LF a} (bounded-exhaustive) plus structure-aware mutants of valid frames (length/count fields replaced by negative, huge, signed, padded and non-numeric numerals; truncation; damaged terminators; nesting 10..200000 deep; counts exceeding the data; huge counts nested and padded; byte edits; long inline commands; large honest bulks and arrays), each decoded once in a fork()ed worker under a counting allocator: outcome must be value / need-more / protocol error with no panic, no abort, no stack overflow, largest single allocation and peak live bytes <= 64 KiB + 64 x input bytes, and a returned value must survive encode -> decode (simple strings holding a lone CR/LF may be normalised once). Non-trivial = the decoder reads at least one complete `$`/`*` header line; distinct = distinct inputs.",
+        "every byte string of length <= 6 over the alphabet {+ - : $ * _ 0 1 2 9 CR LF a} (bounded-exhaustive) plus structure-aware mutants of valid frames (length/count fields replaced by negative, huge, signed, padded and non-numeric numerals; truncation; damaged terminators; nesting 10..200000 deep; counts exceeding the data; huge counts nested and padded; byte edits; long inline commands; large honest bulks and arrays) and an inline-command class (lines not starting with a type byte: lengths around 1, 63-66, 127-130, 1 KiB, 64 KiB; balanced / unbalanced double and single quotes, backslash escapes; 2-, 3- and 4-byte UTF-8 characters straddling every offset in 60..=70 and 124..=132 at every inner position (enumerated) and at random; invalid UTF-8), each decoded once in a fork()ed worker under a counting allocator: outcome must be value / need-more / protocol error with no panic, no abort, no stack overflow, largest single allocation and peak live bytes <= 64 KiB + 64 x input bytes, and a returned value must survive encode -> decode (simple strings holding a lone CR/LF may be normalised once). Non-trivial = the decoder reads at least one complete `$`/`*` header line, or the input is an inline line of >= 60 bytes holding a quote or a non-ASCII byte; distinct = distinct inputs.",
     );
     ev.assume("allocation is measured by a counting global allocator (requested sizes, not allocator overhead); a single request above 1 GiB ends the worker and is judged as an allocation violation");
     ev.assume("workers run on the main thread's 8 MiB stack; the server's tokio workers have 2 MiB, so stack-overflow depths observed here are upper bounds");
@@ -1943,6 +2130,34 @@ fn c21(args: &Args) {
     }
 
     if dbg { eprintln!("exhaustive part done {:?}", t0.elapsed()); }
+    // ---- inline-command sweep (enumerated), one worker record each
+    if failure.is_none() {
+        let cases = c21_inline_cases();
+        let res = c21_run_cases(&cases, &kf);
+        for (c, (_scan, j)) in cases.iter().zip(res) {
+            ev.case();
+            ev.class(c.class);
+            // non-trivial: a line of at least 60 bytes holding a quote or a non-ASCII byte
+            if c.body.len() >= 60 && c.body.iter().any(|x| *x == b'"' || *x >= 0x80) {
+                ev.nontrivial(&c.body);
+            }
+            match j {
+                C21Judgement::Fine(v) => ev.class(c21_verdict_name(v)),
+                C21Judgement::Kf(id) => ev.kf_hit(id),
+                C21Judgement::Timeout => {
+                    ev.timeouts += 1;
+                    ev.class("timeout");
+                }
+                C21Judgement::Bad(m) => {
+                    if failure.is_none() {
+                        failure = Some((c.clone(), m));
+                    }
+                }
+            }
+        }
+        ev.set("inline_sweep_cases", json!(cases.len()));
+        if dbg { eprintln!("inline sweep done {:?} ({} cases)", t0.elapsed(), cases.len()); }
+    }
     // ---- structure-aware mutants, one worker record each
     if failure.is_none() {
         use proptest::prelude::*;
@@ -1965,7 +2180,7 @@ fn c21(args: &Args) {
             for (c, (scan, j)) in chunk.iter().zip(res) {
                 ev.case();
                 ev.class(c.class);
-                if scan.headers > 0 {
+                if scan.headers > 0 || (c.class == "inline_random" && c.body.len() >= 60) {
                     ev.nontrivial(&c.input());
                 }
                 if scan.headers > 0 && ev.want_sample() && ev.evaluations % 997 == 1 {
@@ -2333,6 +2548,8 @@ enum LiveCmd {
     /// GRAPH.QUERY default "RETURN '<literal>' AS s" (size, salt)
     Query(usize, u32),
     Ping,
+    /// a line the decoder refuses (raw bytes incl. CRLF); answered by one error frame
+    Refused(Vec<u8>),
 }
 
 /// payload of `n` bytes over `alpha`: a 4099-byte non-repeating-looking block, entered at
@@ -2349,36 +2566,7 @@ fn live_fill_into(out: &mut Vec<u8>, n: usize, salt: u32, alpha: &[u8]) {
         at = 0;
     }
 }
-#[allow(dead_code)]
-fn live_fill(n: usize, salt: u32, alpha: &[u8]) -> Vec<u8> {
-    let mut out = Vec::with_capacity(n);
-    live_fill_into(&mut out, n, salt, alpha);
-    out
-}
-
-#[allow(dead_code)]
 impl LiveCmd {
-    fn request(&self) -> Vec<u8> {
-        let mut out = Vec::new();
-        match self {
-            LiveCmd::Echo(n, salt) => mv_encode(&MV::Array(vec![bulk(b"ECHO"), MV::Bulk(Some(live_fill(*n, *salt, LIVE_FILL)))]), &mut out, &mut Vec::new()),
-            LiveCmd::Query(n, salt) => {
-                let mut q = b"RETURN '".to_vec();
-                q.extend_from_slice(&live_fill(*n, *salt, LIVE_FILL_QUERY));
-                q.extend_from_slice(b"' AS s");
-                mv_encode(&MV::Array(vec![bulk(b"GRAPH.QUERY"), bulk(b"default"), MV::Bulk(Some(q))]), &mut out, &mut Vec::new())
-            }
-            LiveCmd::Ping => out.extend_from_slice(b"*1\r\n$4\r\nPING\r\n"),
-        }
-        out
-    }
-    fn reply(&self) -> MV {
-        match self {
-            LiveCmd::Echo(n, salt) => MV::Bulk(Some(live_fill(*n, *salt, LIVE_FILL))),
-            LiveCmd::Query(n, salt) => MV::Array(vec![MV::Array(vec![bulk(b"s")]), MV::Array(vec![MV::Bulk(Some(live_fill(*n, *salt, LIVE_FILL_QUERY)))])]),
-            LiveCmd::Ping => MV::Simple(b"PONG".to_vec()),
-        }
-    }
     /// append the request bytes / the expected reply bytes without intermediate copies
     fn request_into(&self, out: &mut Vec<u8>) {
         match self {
@@ -2393,6 +2581,7 @@ impl LiveCmd {
                 out.extend_from_slice(b"' AS s\r\n");
             }
             LiveCmd::Ping => out.extend_from_slice(b"*1\r\n$4\r\nPING\r\n"),
+            LiveCmd::Refused(raw) => out.extend_from_slice(raw),
         }
     }
     fn reply_into(&self, out: &mut Vec<u8>) {
@@ -2408,6 +2597,7 @@ impl LiveCmd {
                 out.extend_from_slice(b"\r\n");
             }
             LiveCmd::Ping => out.extend_from_slice(b"+PONG\r\n"),
+            LiveCmd::Refused(_) => {}
         }
     }
     fn wire_sizes(&self) -> (usize, usize) {
@@ -2415,16 +2605,19 @@ impl LiveCmd {
             LiveCmd::Echo(n, _) => (n + 40, n + 24),
             LiveCmd::Query(n, _) => (n + 80, n + 48),
             LiveCmd::Ping => (14, 7),
+            LiveCmd::Refused(raw) => (raw.len(), 0),
         }
     }
     fn reply_size(&self) -> usize {
         match self {
             LiveCmd::Echo(n, _) | LiveCmd::Query(n, _) => *n,
             LiveCmd::Ping => 4,
+            LiveCmd::Refused(_) => 0,
         }
     }
     fn json(&self) -> J {
         match self {
+            LiveCmd::Refused(raw) => json!({"refused": bj(raw)}),
             LiveCmd::Echo(n, s) => json!({"echo": n, "salt": s}),
             LiveCmd::Query(n, s) => json!({"query": n, "salt": s}),
             LiveCmd::Ping => json!("ping"),
@@ -2435,6 +2628,8 @@ impl LiveCmd {
             LiveCmd::Echo(n.as_u64().unwrap_or(0) as usize, j["salt"].as_u64().unwrap_or(0) as u32)
         } else if let Some(n) = j.get("query") {
             LiveCmd::Query(n.as_u64().unwrap_or(0) as usize, j["salt"].as_u64().unwrap_or(0) as u32)
+        } else if let Some(r) = j.get("refused") {
+            LiveCmd::Refused(jb(r))
         } else {
             LiveCmd::Ping
         }
@@ -2531,20 +2726,119 @@ fn strict_skip(b: &[u8], pos: &mut usize, depth: usize) -> Result<(), String> {
     }
 }
 
-fn c22_live_run(cmds: &[LiveCmd]) -> LiveVerdict {
+// --- shared live exchange engine (C20 live big frames, C22 live replies) -------------------
+
+/// one expected reply on the wire
+enum Seg {
+    /// the only RESP encoding the expected reply has
+    Exact(Vec<u8>),
+    /// any single error frame: `-` <text without CR/LF> CRLF (the wording is not asserted)
+    AnyError,
+}
+
+/// what the writer does after a write
+#[derive(Clone, Copy, Debug, PartialEq)]
+enum Sync {
+    None,
+    SleepMs(u64),
+    /// wait until this many replies have been received completely (bounded; then go on)
+    AwaitReplies(usize),
+}
+
+struct WriteStep {
+    /// write request[previous end .. end]
+    end: usize,
+    sync: Sync,
+}
+
+/// incremental comparison of the reply stream with the expected segments
+struct Matcher {
+    segs: Vec<Seg>,
+    cur: usize,
+    off: usize,
+    /// stream offset
+    total: usize,
+    /// bytes of the error line being read (AnyError)
+    line: Vec<u8>,
+}
+
+impl Matcher {
+    fn new(segs: Vec<Seg>) -> Matcher {
+        Matcher { segs, cur: 0, off: 0, total: 0, line: Vec::new() }
+    }
+    fn done(&self) -> bool {
+        self.cur >= self.segs.len()
+    }
+    fn completed(&self) -> usize {
+        self.cur
+    }
+    /// how many bytes may be read without running past the current reply
+    fn want(&self) -> usize {
+        match self.segs.get(self.cur) {
+            Some(Seg::Exact(b)) => b.len() - self.off,
+            Some(Seg::AnyError) => 64,
+            None => 1,
+        }
+    }
+    /// Err((reply index, offset inside the reply, what is wrong))
+    fn feed(&mut self, mut bytes: &[u8]) -> Result<(), (usize, usize, String)> {
+        while !bytes.is_empty() {
+            match self.segs.get(self.cur) {
+                None => return Err((self.cur, 0, format!("{} bytes after the last expected reply: {}", bytes.len(), show(bytes)))),
+                Some(Seg::Exact(exp)) => {
+                    let n = (exp.len() - self.off).min(bytes.len());
+                    if bytes[..n] != exp[self.off..self.off + n] {
+                        let d = (0..n).find(|j| bytes[*j] != exp[self.off + *j]).unwrap();
+                        return Err((
+                            self.cur,
+                            self.off + d,
+                            format!("the wire carries {} where the frame ({} bytes) continues with {}", show(&bytes[d..]), exp.len(), show(&exp[self.off + d..])),
+                        ));
+                    }
+                    self.off += n;
+                    self.total += n;
+                    bytes = &bytes[n..];
+                    if self.off == exp.len() {
+                        self.cur += 1;
+                        self.off = 0;
+                    }
+                }
+                Some(Seg::AnyError) => {
+                    let b = bytes[0];
+                    if self.line.is_empty() && b != b'-' {
+                        return Err((self.cur, 0, format!("an error reply (one `-...` line) is due, the wire carries {}", show(bytes))));
+                    }
+                    if self.line.len() > 65536 {
+                        return Err((self.cur, self.line.len(), "error line longer than 64 KiB".into()));
+                    }
+                    self.line.push(b);
+                    self.total += 1;
+                    bytes = &bytes[1..];
+                    if self.line.ends_with(b"\r\n") {
+                        let mut pos = 0;
+                        let ok = matches!(strict_parse(&self.line, &mut pos, 0), Ok(MV::Error(_))) && pos == self.line.len();
+                        if !ok {
+                            return Err((self.cur, 0, format!("error reply {} is not one frame for the strict reader", show(&self.line))));
+                        }
+                        self.line.clear();
+                        self.cur += 1;
+                    }
+                }
+            }
+        }
+        Ok(())
+    }
+}
+
+/// Run one connection against the loopback server: a writer thread follows `steps`, this
+/// thread compares every reply byte on arrival. `paced`: read only at quiescent moments at
+/// reply boundaries (see the C22 live part). `label(i)` names reply #i in messages.
+fn live_exchange(request: Vec<u8>, segs: Vec<Seg>, steps: Vec<WriteStep>, paced: bool, label: &dyn Fn(usize) -> String) -> LiveVerdict {
     use std::io::{Read, Write};
+    use std::sync::atomic::{AtomicBool, AtomicUsize, Ordering};
     let port = live_server_port();
     let t_start = std::time::Instant::now();
-    let (rq_cap, ex_cap) = cmds.iter().fold((0, 0), |a, c| (a.0 + c.wire_sizes().0, a.1 + c.wire_sizes().1));
-    let mut request = Vec::with_capacity(rq_cap);
-    let mut expected = Vec::with_capacity(ex_cap);
-    let mut ends = Vec::new();
-    for c in cmds {
-        c.request_into(&mut request);
-        c.reply_into(&mut expected);
-        ends.push(expected.len());
-    }
-    if std::env::var("VC_DEBUG").is_ok() { eprintln!("live: built request {} B, expected {} B t={:?}", request.len(), expected.len(), t_start.elapsed()); }
+    let dbg = std::env::var("VC_DEBUG").is_ok();
     let stream = match std::net::TcpStream::connect(("127.0.0.1", port)) {
         Ok(s) => s,
         Err(e) => return LiveVerdict::Inconclusive(format!("cannot connect to the loopback server: {e}")),
@@ -2555,28 +2849,42 @@ fn c22_live_run(cmds: &[LiveCmd]) -> LiveVerdict {
         Ok(s) => s,
         Err(e) => return LiveVerdict::Inconclusive(format!("cannot clone the socket: {e}")),
     };
-    let written = std::sync::Arc::new(std::sync::atomic::AtomicUsize::new(0));
-    let wdone = std::sync::Arc::new(std::sync::atomic::AtomicBool::new(false));
-    let (written_w, wdone_w) = (written.clone(), wdone.clone());
+    let written = std::sync::Arc::new(AtomicUsize::new(0));
+    let completed = std::sync::Arc::new(AtomicUsize::new(0));
+    let reader_done = std::sync::Arc::new(AtomicBool::new(false));
+    let (written_w, completed_w, reader_done_w) = (written.clone(), completed.clone(), reader_done.clone());
+    let n_replies = segs.len();
     let writer = std::thread::spawn(move || -> Result<(), String> {
-        let mut r = Ok(());
-        for chunk in request.chunks(1 << 18) {
-            if let Err(e) = wstream.write_all(chunk) {
-                r = Err(e.to_string());
-                break;
+        let mut prev = 0usize;
+        for st in &steps {
+            let end = st.end.min(request.len());
+            for chunk in request[prev.min(end)..end].chunks(1 << 18) {
+                if let Err(e) = wstream.write_all(chunk) {
+                    return Err(e.to_string());
+                }
+                written_w.fetch_add(chunk.len(), Ordering::SeqCst);
             }
-            written_w.fetch_add(chunk.len(), std::sync::atomic::Ordering::SeqCst);
+            let _ = wstream.flush();
+            prev = end;
+            match st.sync {
+                Sync::None => {}
+                Sync::SleepMs(ms) => std::thread::sleep(std::time::Duration::from_millis(ms)),
+                Sync::AwaitReplies(n) => {
+                    // bounded wait: the pacing never decides the verdict
+                    let t = std::time::Instant::now();
+                    while completed_w.load(Ordering::SeqCst) < n && !reader_done_w.load(Ordering::SeqCst) && t.elapsed().as_secs() < 60 {
+                        std::thread::sleep(std::time::Duration::from_millis(1));
+                    }
+                }
+            }
+        }
+        if prev < request.len() {
+            wstream.write_all(&request[prev..]).map_err(|e| e.to_string())?;
+            written_w.fetch_add(request.len() - prev, Ordering::SeqCst);
         }
         let _ = wstream.flush();
-        wdone_w.store(true, std::sync::atomic::Ordering::SeqCst);
-        r
+        Ok(())
     });
-    // Before the first read and at every reply boundary the client waits until the
-    // connection is quiescent (neither the bytes it has sent nor the bytes waiting in its
-    // receive queue changed for ~150 ms). The server therefore issues the write of each
-    // reply towards a peer that is not draining, so one write call can move at most the
-    // socket buffers -- the situation in which a short write shows. This pacing only
-    // affects what the server experiences, never the verdict.
     let fd = {
         use std::os::unix::io::AsRawFd;
         stream.as_raw_fd()
@@ -2590,13 +2898,13 @@ fn c22_live_run(cmds: &[LiveCmd]) -> LiveVerdict {
             0
         }
     };
-    let wait_quiescent = |written: &std::sync::atomic::AtomicUsize| -> usize {
-        let mut last = (written.load(std::sync::atomic::Ordering::SeqCst), pending());
+    let wait_quiescent = |written: &AtomicUsize| {
+        let mut last = (written.load(Ordering::SeqCst), pending());
         let mut stable = 0;
         let mut spins = 0;
         while stable < 6 && spins < 200 {
             std::thread::sleep(std::time::Duration::from_millis(25));
-            let cur = (written.load(std::sync::atomic::Ordering::SeqCst), pending());
+            let cur = (written.load(Ordering::SeqCst), pending());
             if cur == last {
                 stable += 1;
             } else {
@@ -2605,97 +2913,70 @@ fn c22_live_run(cmds: &[LiveCmd]) -> LiveVerdict {
             }
             spins += 1;
         }
-        last.1
     };
-    let which = |off: usize| ends.iter().position(|e| off < *e).unwrap_or(ends.len().saturating_sub(1));
-    let describe = |i: usize| format!("reply #{i} (to {})", cmds[i].json());
+    let mut m = Matcher::new(segs);
     let mut rstream = stream;
-    // received bytes are compared on arrival and not stored: `got_len` bytes of `expected`
-    // are known to be exactly what came over the wire
-    let mut got_len: usize = 0;
     let mut tmp = vec![0u8; 1 << 18];
     let mut last_progress = std::time::Instant::now();
     let mut verdict: Option<LiveVerdict> = None;
     let mut paused_at: Option<usize> = None;
-    while verdict.is_none() {
-        // pause at the start and at every reply boundary (where the server issues its next
-        // write); in between, drain at full speed. Reads never cross a boundary.
-        let at_boundary = got_len == 0 || ends.contains(&got_len);
-        if at_boundary && paused_at != Some(got_len) {
-            if std::env::var("VC_DEBUG").is_ok() { eprintln!("live: boundary at {} t={:?} written={}", got_len, t_start.elapsed(), written.load(std::sync::atomic::Ordering::SeqCst)); }
+    while verdict.is_none() && !m.done() {
+        if paced && m.off == 0 && m.line.is_empty() && paused_at != Some(m.cur) {
+            if dbg {
+                eprintln!("live: boundary before reply #{} t={:?} written={}", m.cur, t_start.elapsed(), written.load(Ordering::SeqCst));
+            }
             wait_quiescent(&written);
-            if std::env::var("VC_DEBUG").is_ok() { eprintln!("live: quiescent t={:?} pending={}", t_start.elapsed(), pending()); }
-            paused_at = Some(got_len);
+            paused_at = Some(m.cur);
         }
-        let next_end = ends.iter().copied().find(|e| *e > got_len).unwrap_or(usize::MAX);
-        let want = (next_end - got_len).min(tmp.len()).max(1);
+        let want = m.want().min(tmp.len()).max(1);
         match rstream.read(&mut tmp[..want]) {
             Ok(0) => {
-                if got_len == expected.len() {
-                    break;
-                }
-                let i = which(got_len);
                 verdict = Some(LiveVerdict::Violation(format!(
-                    "the server closed the connection after {} of {} reply bytes, inside {}; {} complete replies of {} were received",
-                    got_len,
-                    expected.len(),
-                    describe(i),
-                    ends.iter().filter(|e| **e <= got_len).count(),
-                    cmds.len()
+                    "the server closed the connection after {} reply bytes, inside {}; {} complete replies of {} were received",
+                    m.total,
+                    label(m.cur.min(n_replies.saturating_sub(1))),
+                    m.completed(),
+                    n_replies
                 )));
             }
             Ok(k) => {
                 last_progress = std::time::Instant::now();
-                let off = got_len;
-                if off + k > expected.len() {
-                    let extra = &tmp[expected.len().saturating_sub(off).min(k)..k];
-                    verdict = Some(LiveVerdict::Violation(format!("{} bytes after the last expected reply: {}", off + k - expected.len(), show(extra))));
-                    continue;
-                }
-                if tmp[..k] != expected[off..off + k] {
-                    let d = (0..k).find(|j| tmp[*j] != expected[off + *j]).unwrap();
-                    let at = off + d;
-                    let i = which(at);
-                    let start = if i == 0 { 0 } else { ends[i - 1] };
+                let before = m.total;
+                if let Err((i, off, what)) = m.feed(&tmp[..k]) {
                     verdict = Some(LiveVerdict::Violation(format!(
-                        "byte {} of the reply stream (byte {} of {}, a frame of {} bytes) is wrong: the wire carries {} where the frame continues with {}; the client can no longer read one well-formed frame per command",
-                        at,
-                        at - start,
-                        describe(i),
-                        ends[i] - start,
-                        show(&tmp[d..k]),
-                        show(&expected[at..])
+                        "reply stream byte {} (byte {off} of {}) is wrong: {what}; the client can no longer read one well-formed frame per command",
+                        before.max(m.total),
+                        label(i.min(n_replies.saturating_sub(1)))
                     )));
-                    continue;
                 }
-                got_len += k;
-                if got_len == expected.len() {
-                    // grace read: anything more is a stray frame
-                    rstream.set_read_timeout(Some(std::time::Duration::from_millis(150))).ok();
-                    match rstream.read(&mut tmp) {
-                        Ok(k2) if k2 > 0 => verdict = Some(LiveVerdict::Violation(format!("{k2} bytes after the last expected reply: {}", show(&tmp[..k2])))),
-                        _ => {}
-                    }
-                    break;
-                }
+                completed.store(m.completed(), Ordering::SeqCst);
             }
             Err(e) if e.kind() == std::io::ErrorKind::WouldBlock || e.kind() == std::io::ErrorKind::TimedOut || e.kind() == std::io::ErrorKind::Interrupted => {
                 if last_progress.elapsed().as_secs() >= LIVE_IDLE_SECS {
                     verdict = Some(LiveVerdict::Inconclusive(format!(
-                        "no reply byte for {LIVE_IDLE_SECS} s with the connection open; {} of {} bytes received so far, all of them correct",
-                        got_len,
-                        expected.len()
+                        "no reply byte for {LIVE_IDLE_SECS} s with the connection open; {} bytes / {} of {} replies received so far, all of them correct",
+                        m.total,
+                        m.completed(),
+                        n_replies
                     )));
                 }
             }
             Err(e) => {
-                let i = which(got_len);
-                verdict = Some(LiveVerdict::Violation(format!("the connection failed ({e}) after {} of {} reply bytes, inside {}", got_len, expected.len(), describe(i))));
+                verdict = Some(LiveVerdict::Violation(format!("the connection failed ({e}) after {} reply bytes, inside {}", m.total, label(m.cur.min(n_replies.saturating_sub(1))))));
             }
         }
     }
+    if verdict.is_none() {
+        // complete: anything more on the wire is a stray frame
+        rstream.set_read_timeout(Some(std::time::Duration::from_millis(150))).ok();
+        if let Ok(k2) = rstream.read(&mut tmp) {
+            if k2 > 0 {
+                verdict = Some(LiveVerdict::Violation(format!("{k2} bytes after the last expected reply: {}", show(&tmp[..k2]))));
+            }
+        }
+    }
+    reader_done.store(true, Ordering::SeqCst);
     let _ = rstream.shutdown(std::net::Shutdown::Both);
-    let _ = &wdone;
     let wres = writer.join().unwrap_or_else(|_| Err("writer thread panicked".into()));
     if let Some(v) = verdict {
         return v;
@@ -2703,20 +2984,324 @@ fn c22_live_run(cmds: &[LiveCmd]) -> LiveVerdict {
     if let Err(e) = wres {
         return LiveVerdict::Violation(format!("writing the pipeline failed although every reply arrived: {e}"));
     }
-    // the whole stream through the strict reader: one frame per command, in order. The
-    // received stream equals `expected` byte for byte (checked above), so it is read from there.
-    let mut pos = 0;
-    for (i, end) in ends.iter().enumerate() {
-        match strict_skip(&expected, &mut pos, 0) {
-            Ok(()) if pos == *end => {}
-            Ok(()) => return LiveVerdict::Violation(format!("{}: the strict reader's frame ends at byte {pos}, the reply at byte {end}", describe(i))),
-            Err(e) => return LiveVerdict::Violation(format!("{} is not a frame for the strict reader: {e}", describe(i))),
+    // every Exact reply through the strict reader (the received bytes equal it byte for byte)
+    for (i, s) in m.segs.iter().enumerate() {
+        if let Seg::Exact(b) = s {
+            let mut pos = 0;
+            match strict_skip(b, &mut pos, 0) {
+                Ok(()) if pos == b.len() => {}
+                Ok(()) => return LiveVerdict::Violation(format!("{}: the strict reader's frame ends at byte {pos} of {}", label(i), b.len())),
+                Err(e) => return LiveVerdict::Violation(format!("{} is not a frame for the strict reader: {e}", label(i))),
+            }
         }
     }
-    if pos != got_len {
-        return LiveVerdict::Violation(format!("{} stray bytes after the last frame", got_len - pos));
+    if dbg {
+        eprintln!("live: exchange held, {} reply bytes, t={:?}", m.total, t_start.elapsed());
     }
     LiveVerdict::Held
+}
+
+/// one connection of the C22 live part
+fn c22_live_run(cmds: &[LiveCmd]) -> LiveVerdict {
+    let (rq_cap, _) = cmds.iter().fold((0, 0), |a, c| (a.0 + c.wire_sizes().0, a.1 + c.wire_sizes().1));
+    let mut request = Vec::with_capacity(rq_cap);
+    let mut segs = Vec::new();
+    let mut steps = Vec::new();
+    for (i, c) in cmds.iter().enumerate() {
+        c.request_into(&mut request);
+        match c {
+            LiveCmd::Refused(_) => {
+                segs.push(Seg::AnyError);
+                // the server stops decoding the current read after a refused input: it must
+                // be the last thing of its write, and its error reply is awaited before
+                // anything else is sent (then the next write starts a new read)
+                steps.push(WriteStep { end: request.len(), sync: Sync::AwaitReplies(i + 1) });
+            }
+            _ => {
+                let mut b = Vec::with_capacity(c.wire_sizes().1);
+                c.reply_into(&mut b);
+                segs.push(Seg::Exact(b));
+            }
+        }
+    }
+    steps.push(WriteStep { end: request.len(), sync: Sync::None });
+    let label = |i: usize| format!("reply #{i} (to {})", cmds[i].json());
+    live_exchange(request, segs, steps, true, &label)
+}
+
+// --- C20 live part with big frames (runs in both tiers) ------------------------------------
+//
+// Pipelines mixing frames of {small, ~4 KiB, 64 KiB-1/0/+1, 65 KiB, 256 KiB, 1 MiB} are
+// written to a real RespServer in generated write plans whose boundaries straddle frames:
+// a big frame minus its last T bytes, then [its tail + the first half of the next frame]
+// (or [tail + a whole small frame + half of another]) in ONE write, then -- once the big
+// frame's reply has arrived -- the rest. Replies are compared byte for byte on arrival
+// (same verdict rule as the C22 live part: wrong byte / early close / surplus bytes =
+// violation; correct prefix + 180 s silence = inconclusive).
+
+#[derive(Clone, Debug)]
+struct BigCase {
+    cmds: Vec<LiveCmd>,
+    /// (request offset where a write ends, sync kind: 0 none, 1 short sleep, 2 await replies)
+    writes: Vec<(usize, u8)>,
+    plan: &'static str,
+}
+
+fn big_request(cmds: &[LiveCmd]) -> (Vec<u8>, Vec<usize>) {
+    let cap = cmds.iter().map(|c| c.wire_sizes().0).sum();
+    let mut request = Vec::with_capacity(cap);
+    let mut ends = Vec::new();
+    for c in cmds {
+        c.request_into(&mut request);
+        ends.push(request.len());
+    }
+    (request, ends)
+}
+
+impl BigCase {
+    fn json(&self) -> J {
+        json!({
+            "live_big": true,
+            "pipeline": self.cmds.iter().map(|c| c.json()).collect::<Vec<_>>(),
+            "writes": self.writes.iter().map(|(e, k)| { let kind = ["none", "sleep", "await"][*k as usize % 3]; json!([e, kind]) }).collect::<Vec<_>>(),
+        })
+    }
+    fn from_json(j: &J) -> BigCase {
+        let cmds = j["pipeline"].as_array().cloned().unwrap_or_default().iter().map(LiveCmd::from_json).collect();
+        let writes = j["writes"]
+            .as_array()
+            .cloned()
+            .unwrap_or_default()
+            .iter()
+            .map(|w| {
+                let k = match w[1].as_str().unwrap_or("none") {
+                    "sleep" => 1,
+                    "await" => 2,
+                    _ => 0,
+                };
+                (w[0].as_u64().unwrap_or(0) as usize, k)
+            })
+            .collect();
+        BigCase { cmds, writes, plan: "replay" }
+    }
+    fn run(&self) -> LiveVerdict {
+        let (request, ends) = big_request(&self.cmds);
+        let mut segs = Vec::new();
+        for c in &self.cmds {
+            let mut b = Vec::with_capacity(c.wire_sizes().1);
+            c.reply_into(&mut b);
+            segs.push(Seg::Exact(b));
+        }
+        let mut steps = Vec::new();
+        let mut prev = 0usize;
+        for (end, kind) in &self.writes {
+            let end = (*end).min(request.len());
+            if end <= prev {
+                continue;
+            }
+            prev = end;
+            let whole = ends.iter().filter(|e| **e <= end).count();
+            let sync = match kind {
+                2 if whole > 0 => Sync::AwaitReplies(whole),
+                0 => Sync::None,
+                _ => Sync::SleepMs(3),
+            };
+            steps.push(WriteStep { end, sync });
+        }
+        steps.push(WriteStep { end: request.len(), sync: Sync::None });
+        let cmds = self.cmds.clone();
+        let label = move |i: usize| format!("reply #{i} (to {})", cmds[i].json());
+        live_exchange(request, segs, steps, false, &label)
+    }
+    /// some write carries the tail of a frame of more than 64 KiB and ends strictly inside a
+    /// later frame
+    fn straddles_after_big(&self) -> bool {
+        let (_, ends) = big_request_sizes(&self.cmds);
+        let start = |i: usize| if i == 0 { 0 } else { ends[i - 1] };
+        let mut prev = 0usize;
+        let mut hit = false;
+        for (w, _) in &self.writes {
+            for i in 0..ends.len() {
+                let big_tail_in_write = ends[i] - start(i) > 65536 && prev < ends[i] && ends[i] < *w;
+                let ends_inside_later = (i + 1..ends.len()).any(|j| *w > start(j) && *w < ends[j]);
+                if big_tail_in_write && ends_inside_later {
+                    hit = true;
+                }
+            }
+            prev = *w;
+        }
+        hit
+    }
+}
+
+/// frame end offsets without materialising the request
+fn big_request_sizes(cmds: &[LiveCmd]) -> (usize, Vec<usize>) {
+    let mut ends = Vec::new();
+    let mut at = 0usize;
+    for c in cmds {
+        at += match c {
+            LiveCmd::Echo(n, _) => format!("*2\r\n$4\r\nECHO\r\n${n}\r\n").len() + n + 2,
+            LiveCmd::Query(n, _) => format!("*3\r\n$11\r\nGRAPH.QUERY\r\n$7\r\ndefault\r\n${}\r\nRETURN '", n + 14).len() + n + 8,
+            LiveCmd::Ping => 14,
+            LiveCmd::Refused(r) => r.len(),
+        };
+        ends.push(at);
+    }
+    (at, ends)
+}
+
+fn big_frame_class(n: usize) -> &'static str {
+    match n {
+        0..=1023 => "small",
+        1024..=16383 => "4k",
+        16384..=65535 => "64k",
+        65536..=131071 => "65k",
+        131072..=524287 => "256k",
+        _ => "1m",
+    }
+}
+
+/// write plans over a command list
+fn big_plan(cmds: &[LiveCmd], kind: usize, t: &mut Tape) -> (Vec<(usize, u8)>, &'static str) {
+    let (total, ends) = big_request_sizes(cmds);
+    let start = |i: usize| if i == 0 { 0 } else { ends[i - 1] };
+    let len = |i: usize| ends[i] - start(i);
+    let tails = [1usize, 2, 100, 4096];
+    let mut w: Vec<(usize, u8)> = Vec::new();
+    match kind {
+        0 => {
+            // big frame minus T | tail + half of the next frame | rest
+            for i in 0..cmds.len().saturating_sub(1) {
+                if len(i) > 60_000 {
+                    let tl = tails[t.pick(tails.len())].min(len(i) - 1);
+                    w.push((ends[i] - tl, 1));
+                    w.push((ends[i] + (len(i + 1) / 2).max(1).min(len(i + 1) - 1), 2));
+                }
+            }
+            (w, "straddle_next")
+        }
+        1 => {
+            // big frame minus T | tail + whole next frame + half of the one after | rest
+            for i in 0..cmds.len().saturating_sub(2) {
+                if len(i) > 60_000 && len(i + 1) < 8192 {
+                    let tl = tails[t.pick(tails.len())].min(len(i) - 1);
+                    w.push((ends[i] - tl, 1));
+                    w.push((ends[i + 1] + (len(i + 2) / 2).max(1).min(len(i + 2) - 1), 2));
+                }
+            }
+            (w, "tail_small_half")
+        }
+        2 => {
+            let n = 2 + t.pick(5);
+            let mut cuts: Vec<usize> = (0..n).map(|_| 1 + t.pick(total - 1)).collect();
+            // pull some cuts to frame ends +- a few bytes
+            for c in cuts.iter_mut() {
+                if t.pick(2) == 0 {
+                    let e = ends[t.pick(ends.len())];
+                    *c = (e + t.pick(9)).saturating_sub(4).clamp(1, total - 1);
+                }
+            }
+            cuts.sort();
+            cuts.dedup();
+            (cuts.into_iter().map(|c| (c, 1 + (c % 2) as u8)).collect(), "random_cuts")
+        }
+        _ => (w, "one_write"),
+    }
+}
+
+fn c20_big_cases(args: &Args) -> Vec<BigCase> {
+    use proptest::prelude::*;
+    const K: usize = 1024;
+    let n_random = args.tier.pick(2usize, 40usize);
+    let tapes = generate(args.seed ^ 0x20b1, 5 + n_random, &proptest::collection::vec(any::<u16>(), 32));
+    let mut out = Vec::new();
+    for (k, tape) in tapes.iter().enumerate() {
+        let mut t = Tape::new(tape);
+        // ECHO payload sizes: the frame is the payload plus 24-25 bytes
+        let s = (k * 10) as u32;
+        let (cmds, kind): (Vec<LiveCmd>, usize) = match k {
+            0 => (vec![LiveCmd::Echo(65511 + t.pick(3), s), LiveCmd::Echo(20 + t.pick(40), s + 1), LiveCmd::Ping], 0),
+            1 => (vec![LiveCmd::Echo(65 * K + t.pick(64), s), LiveCmd::Ping, LiveCmd::Echo(4 * K + t.pick(32) - 16, s + 1), LiveCmd::Ping], 1),
+            2 => (vec![LiveCmd::Echo(256 * K + t.pick(64), s), LiveCmd::Echo(65512, s + 1), LiveCmd::Echo(30, s + 2), LiveCmd::Ping], 0),
+            3 => (vec![LiveCmd::Echo(K * K + t.pick(64), s), LiveCmd::Echo(4 * K + t.pick(32), s + 1), LiveCmd::Echo(65 * K, s + 2), LiveCmd::Ping, LiveCmd::Ping], 0),
+            4 => (vec![LiveCmd::Echo(70 * K, s), LiveCmd::Echo(3, s + 1), LiveCmd::Echo(300 * K, s + 2), LiveCmd::Echo(5, s + 3), LiveCmd::Echo(200, s + 4), LiveCmd::Ping], 1),
+            _ => {
+                let n = 2 + t.pick(5);
+                let sizes = [0usize, 7, 60, 4 * K - 8, 4 * K + 8, 65511, 65512, 65513, 65 * K, 256 * K, K * K, 130 * K];
+                let mut v: Vec<LiveCmd> = (0..n)
+                    .map(|j| if t.pick(6) == 0 { LiveCmd::Ping } else { LiveCmd::Echo(sizes[t.pick(sizes.len())] + t.pick(3), s + j as u32) })
+                    .collect();
+                // at least one frame above 64 KiB that is followed by another frame
+                if !v[..v.len() - 1].iter().any(|c| matches!(c, LiveCmd::Echo(n, _) if *n > 65536)) {
+                    v.insert(0, LiveCmd::Echo([65 * K, 256 * K, 70 * K][t.pick(3)] + t.pick(5), s + 9));
+                }
+                v.push(LiveCmd::Ping);
+                (v, t.pick(4))
+            }
+        };
+        let (writes, plan) = big_plan(&cmds, kind, &mut t);
+        out.push(BigCase { cmds, writes, plan });
+    }
+    out
+}
+
+/// the live part of C20 that runs in every tier; returns a failing case and its message
+fn c20_live_big(args: &Args, ev: &mut Evidence) -> Option<(BigCase, String)> {
+    for case in c20_big_cases(args) {
+        ev.class("live_big_connections");
+        ev.class(&format!("live_big_plan_{}", case.plan));
+        for c in &case.cmds {
+            ev.case();
+            match c {
+                LiveCmd::Echo(n, _) => ev.class(&format!("live_big_frame_{}", big_frame_class(*n))),
+                _ => ev.class("live_big_frame_ping"),
+            }
+        }
+        if case.straddles_after_big() {
+            ev.class("live_big_write_straddles_after_big_frame");
+            ev.nontrivial(&("live_big", case.json().to_string()));
+        }
+        match case.run() {
+            LiveVerdict::Held => ev.class("live_big_held"),
+            LiveVerdict::Inconclusive(m) => {
+                eprintln!("INCONCLUSIVE: live pipeline {}: {m}", case.json());
+                ev.write();
+                std::process::exit(2);
+            }
+            LiveVerdict::Violation(m) => {
+                ev.frozen = true;
+                if !(0..3).any(|_| matches!(case.run(), LiveVerdict::Violation(_))) {
+                    inconclusive_exit(ev, &case.json(), &m);
+                }
+                // shrink: fewer write boundaries, then fewer trailing commands
+                let base = case.clone();
+                let fails = |w: &[(usize, u8)]| {
+                    let mut c = base.clone();
+                    c.writes = w.to_vec();
+                    matches!(c.run(), LiveVerdict::Violation(_))
+                };
+                let mut best = case.clone();
+                best.writes = shrink_vec(case.writes.clone(), &fails);
+                while best.cmds.len() > 2 {
+                    let mut c = best.clone();
+                    c.cmds.pop();
+                    let (total, _) = big_request_sizes(&c.cmds);
+                    c.writes.retain(|(w, _)| *w < total);
+                    if matches!(c.run(), LiveVerdict::Violation(_)) {
+                        best = c;
+                    } else {
+                        break;
+                    }
+                }
+                let msg = match best.run() {
+                    LiveVerdict::Violation(m2) => m2,
+                    _ => m,
+                };
+                return Some((best, msg));
+            }
+        }
+    }
+    None
 }
 
 fn c22_live_case_json(cmds: &[LiveCmd]) -> J {
@@ -2757,7 +3342,7 @@ fn c22_live_pipelines(args: &Args) -> Vec<Vec<LiveCmd>> {
                 v
             }
         };
-        // order of the fixed pipelines varies with the seed; every pipeline ends with a PING
+        // order of the large-reply pipelines varies with the seed; every pipeline ends with a PING
         if k < 3 {
             let mut t2 = Tape::new(&tape[8..]);
             let r = t2.pick(cmds.len());
@@ -2765,6 +3350,39 @@ fn c22_live_pipelines(args: &Args) -> Vec<Vec<LiveCmd>> {
         }
         cmds.push(LiveCmd::Ping);
         out.push(cmds);
+    }
+    // refused inputs after answered commands on the same connection: each must be answered by
+    // exactly one error frame (the server keeps the connection open and goes on)
+    let refused: Vec<Vec<u8>> = vec![
+        b"*abc\r\n".to_vec(),
+        b"$-7\r\n".to_vec(),
+        b"\"unclosed quote\r\n".to_vec(),
+        b":x\r\n".to_vec(),
+        b"_x\r\n".to_vec(),
+        b"\r\n".to_vec(),
+        b"$abc\r\n".to_vec(),
+        b"*-1\r\n".to_vec(),
+        b"+\xff\r\n".to_vec(),
+        b"ECHO \"aaaaaaaaaaaaaaaaaaaaaaaaaaaaaaaaaaaaaaaaaaaaaaaaaaaaaaaaaa\xc3\xa9\xe2\x82\xac\xf0\x9f\x98\x80 tail\r\n".to_vec(),
+    ];
+    let r = |i: usize| LiveCmd::Refused(refused[i % refused.len()].clone());
+    out.push(vec![LiveCmd::Ping, r(0), LiveCmd::Ping, r(1), LiveCmd::Echo(10, 900), r(2), LiveCmd::Ping]);
+    out.push(vec![LiveCmd::Echo(64 * 1024, 901), r(3), LiveCmd::Query(100, 902), r(4), r(5), LiveCmd::Ping]);
+    let rt = generate(args.seed ^ 0x22ef, args.tier.pick(1usize, 20usize), &proptest::collection::vec(any::<u16>(), 16));
+    for (k, tape) in rt.iter().enumerate() {
+        let mut t = Tape::new(tape);
+        let n = 3 + t.pick(6);
+        let mut v = vec![[LiveCmd::Ping, LiveCmd::Echo(5 + t.pick(2000), 950 + k as u32)][t.pick(2)].clone()];
+        for j in 0..n {
+            v.push(match t.pick(3) {
+                0 => LiveCmd::Ping,
+                1 => LiveCmd::Echo(t.pick(3000), 960 + (k * 8 + j) as u32),
+                _ => r(t.pick(refused.len())),
+            });
+        }
+        v.push(r(6 + t.pick(4)));
+        v.push(LiveCmd::Ping);
+        out.push(v);
     }
     out
 }
@@ -2777,6 +3395,10 @@ fn c22_live(args: &Args, ev: &mut Evidence) -> Option<(Vec<LiveCmd>, String)> {
             ev.case();
             match c {
                 LiveCmd::Ping => ev.class("live_large_reply_cmd_ping"),
+                LiveCmd::Refused(_) => {
+                    ev.class("live_refused_input");
+                    ev.nontrivial(&("live", c));
+                }
                 LiveCmd::Query(n, _) => {
                     ev.class("live_large_reply_cmd_query");
                     ev.class(&format!("live_large_reply_size_{}", live_size_class(*n)));
@@ -2930,6 +3552,28 @@ fn c22(args: &Args) {
 
     'search: {
         for (_p, case) in corpus_cases("C22") {
+            if case.get("live").and_then(|l| l.as_bool()).unwrap_or(false) {
+                let cmds: Vec<LiveCmd> = case["pipeline"].as_array().cloned().unwrap_or_default().iter().map(LiveCmd::from_json).collect();
+                ev.cases(cmds.len() as u64);
+                ev.class("corpus");
+                ev.class("live_corpus_pipeline");
+                match c22_live_run(&cmds) {
+                    LiveVerdict::Held => {}
+                    LiveVerdict::Inconclusive(m) => {
+                        eprintln!("INCONCLUSIVE: live corpus pipeline {case}: {m}");
+                        ev.write();
+                        std::process::exit(2);
+                    }
+                    LiveVerdict::Violation(m) => {
+                        if !(0..3).any(|_| matches!(c22_live_run(&cmds), LiveVerdict::Violation(_))) {
+                            inconclusive_exit(&ev, &case, &m);
+                        }
+                        report_violation(&mut ev, &case, &m);
+                        finish(&ev);
+                    }
+                }
+                continue;
+            }
             let (cmds, plant) = c22_case_from(&case);
             if !run_case(&mut ev, "corpus", cmds, &plant) {
                 break 'search;
@@ -3322,6 +3966,21 @@ const C24_PREFIXES: &[&str] = &[
     "WITH 1 AS one MATCH (n:Person)",
     "RETURN 1 AS one UNION MATCH (n:Person)",
 ];
+/// read parts holding a ';' that is not a statement separator (or, for the backticked name,
+/// text the grammar refuses)
+const C24_SEMI_PREFIXES: &[&str] = &[
+    "MATCH (n:Person) WHERE n.name <> 'a;b'",
+    "MATCH (n:Person) WHERE n.name <> \"a;b\"",
+    "MATCH (n:Person) WHERE n.name <> ';'",
+    "MATCH (n:Person {name: 'x;y'})",
+    "MATCH (n:Person) /* note; here */",
+    "MATCH (n:Person) // first; part\n",
+    "WITH 'a;b' AS s MATCH (n:Person)",
+    "UNWIND ['a;b', ';'] AS s MATCH (n:Person)",
+    "RETURN 'a;b' AS s UNION MATCH (n:Person)",
+    "MATCH (n:`Per;son`)",
+    "MATCH (n:Person) WHERE n.name = 'Ann' OR n.name = 'it''s; fine'",
+];
 const C24_WRITES: &[&str] = &[
     "CREATE (x:Evil)",
     "CREATE (n)-[:OWNS]->(x:Evil)",
@@ -3393,6 +4052,30 @@ fn c24_cores() -> Vec<(&'static str, String, bool)> {
             v.push(("read_semicolon_standalone", format!("{r}; {s}"), true));
         }
     }
+    // ';' where a statement splitter would trip: inside quoted literals, comments and
+    // backticked names before the write clause, inside the write clause, as trailing /
+    // leading separator, and between several statements
+    let semi_writes: Vec<&str> = C24_WRITES.iter().copied().chain(["SET n.note = 'x;y'", "CREATE (x:Evil {s: 'p;q'})", "MERGE (x:Evil {k: ';'})"]).collect();
+    for p in C24_SEMI_PREFIXES {
+        for w in &semi_writes {
+            for suffix in ["", ";", " RETURN 1 AS done"] {
+                v.push(("semicolon_in_read_part_then_write", format!("{p} {w}{suffix}"), true));
+            }
+        }
+        v.push(("semicolon_read_only_control", format!("{p} RETURN n"), false));
+        v.push(("semicolon_read_only_control", format!("{p} RETURN count(n) AS c;"), false));
+    }
+    for w in C24_WRITES {
+        for lead in ["; ", "  ;\n", ";;"] {
+            v.push(("semicolon_leading", format!("{lead}MATCH (n:Person) {w}"), true));
+        }
+        for trail in [";", " ; ", ";;", ";\n"] {
+            v.push(("semicolon_trailing", format!("MATCH (n:Person) {w}{trail}"), true));
+        }
+        v.push(("semicolon_write_then_read", format!("MATCH (n:Person) {w}; MATCH (m) RETURN m"), true));
+        v.push(("semicolon_read_then_write", format!("MATCH (m) WHERE m.name <> 'a;b' RETURN m; MATCH (n:Person) {w}"), true));
+        v.push(("semicolon_read_then_write", format!("RETURN ';' AS s; MATCH (n:Person) {w}"), true));
+    }
     for s in C24_STANDALONE.iter().chain(C24_WRITES.iter()) {
         v.push(("call_subquery_write", format!("CALL {{ {s} }} RETURN 1 AS one"), true));
         v.push(("standalone_write", s.to_string(), true));
@@ -3409,7 +4092,7 @@ fn c24(args: &Args) {
     let mut ev = Evidence::new(
         args,
         "exploration",
-        "model responses served by a loopback Ollama stub to the real NLQPipeline::text_to_cypher (and, for the plain and ```cypher-fenced forms, also through POST /api/nlq of the shipped router): full cross product {MATCH, OPTIONAL MATCH, MATCH..WITH, UNWIND, CALL..YIELD, WITH, RETURN..UNION} prefixes x {CREATE, CREATE rel, MERGE, SET prop, SET label, REMOVE prop, REMOVE label, DELETE, DETACH DELETE, FOREACH create, FOREACH set, CALL algo.or.solve, CALL samyama.OR.Solve} x {space, newline} x {no RETURN, RETURN}; stand-alone DDL/write statements (CREATE/DROP INDEX, CREATE CONSTRAINT, CREATE VECTOR/HIERARCHY INDEX, DROP/REBUILD HIERARCHY INDEX, algo.or.solve) after a read via UNION / newline / semicolon / CALL {} / EXPLAIN; read-only controls; each wrapped 13 ways (plain, fences with and without tag, two fenced blocks, explanations, blank lines, lower case, comment, unclosed fence, CRLF, inline fence) x 5 graphs (empty .. with property index, unique constraint, hierarchy and vector index), plus random mixes of read clauses, write clauses and stand-alone statements joined by space / newline / UNION / semicolon under a random wrapper. Oracle: a handed-back statement plans with is_write == false and, executed with MutQueryExecutor on a twin store, leaves nodes, edges, properties, indexes, constraints, hierarchy and vector index lists unchanged. The pipeline is called once per response (the decision does not see the graph); the effect of a handed-back statement is evaluated on each of the 5 graphs, memoised per (statement, graph). A case = (response, graph). Non-trivial = the response holds a write/DDL clause after a read prefix; distinct = distinct (response, graph).",
+        "model responses served by a loopback Ollama stub to the real NLQPipeline::text_to_cypher (and, for the plain and ```cypher-fenced forms, also through POST /api/nlq of the shipped router): full cross product {MATCH, OPTIONAL MATCH, MATCH..WITH, UNWIND, CALL..YIELD, WITH, RETURN..UNION} prefixes x {CREATE, CREATE rel, MERGE, SET prop, SET label, REMOVE prop, REMOVE label, DELETE, DETACH DELETE, FOREACH create, FOREACH set, CALL algo.or.solve, CALL samyama.OR.Solve} x {space, newline} x {no RETURN, RETURN}; ';' inside single-/double-quoted literals, comments and a backticked name before the write clause, inside the write clause, as leading / trailing separator and between statements (write after read, read after write); stand-alone DDL/write statements (CREATE/DROP INDEX, CREATE CONSTRAINT, CREATE VECTOR/HIERARCHY INDEX, DROP/REBUILD HIERARCHY INDEX, algo.or.solve) after a read via UNION / newline / semicolon / CALL {} / EXPLAIN; read-only controls; each wrapped 13 ways (plain, fences with and without tag, two fenced blocks, explanations, blank lines, lower case, comment, unclosed fence, CRLF, inline fence) x 5 graphs (empty .. with property index, unique constraint, hierarchy and vector index), plus random mixes of read clauses, write clauses and stand-alone statements joined by space / newline / UNION / semicolon under a random wrapper. Oracle: a handed-back statement plans with is_write == false and, executed with MutQueryExecutor on a twin store, leaves nodes, edges, properties, indexes, constraints, hierarchy and vector index lists unchanged. The pipeline is called once per response (the decision does not see the graph); the effect of a handed-back statement is evaluated on each of the 5 graphs, memoised per (statement, graph). A case = (response, graph). Non-trivial = the response holds a write/DDL clause after a read prefix; distinct = distinct (response, graph).",
     );
     ev.assume("unparseable text that is handed back cannot mutate anything: counted (handed_back_unparseable), not flagged");
     let known = Known::load(args);
@@ -3532,7 +4215,7 @@ fn c24(args: &Args) {
             // random mixes of clauses, separators and wrappers
             use proptest::prelude::*;
             let tapes = generate(args.seed, args.tier.pick(4_000, 50_000), &proptest::collection::vec(any::<u16>(), 16));
-            let reads = ["MATCH (n:Person)", "OPTIONAL MATCH (n:Person)-[:KNOWS]->(o)", "WITH n", "UNWIND [1, 2] AS i", "WHERE n.age > 1", "CALL db.labels() YIELD label", "RETURN n", "RETURN count(*) AS c", "ORDER BY n.name", "LIMIT 1"];
+            let reads = ["MATCH (n:Person)", "OPTIONAL MATCH (n:Person)-[:KNOWS]->(o)", "WITH n", "UNWIND [1, 2] AS i", "WHERE n.age > 1", "WHERE n.name <> 'a;b'", "WITH 'x;y' AS s", "/* c; */", "CALL db.labels() YIELD label", "RETURN n", "RETURN count(*) AS c", "ORDER BY n.name", "LIMIT 1"];
             for tape in tapes {
                 let mut t = Tape::new(&tape);
                 let n = 1 + t.pick(5);
